@@ -187,14 +187,19 @@ def part_standalone(ctx, impl, rng, quick):
     exprs = []
     for lab, o in cases:
         call = o['argsort'][0]
-        exprs.append('(argsort_ok_b %s %s, reindex_labels (fun _ => %s) %s)' %
-                     (zlist(call['keys']), nlist(call['perm']), nlist(call['perm']), zlist(lab)))
+        # the contract is checked against the keys the MODEL hands to argsort (so a change of the sort key is seen too)
+        exprs.append('(argsort_ok_b (map (fun c => (- Z.of_nat c)%%Z) (unique_counts %s)) %s, reindex_labels (fun _ => %s) %s)' %
+                     (zlist(lab), nlist(call['perm']), nlist(call['perm']), zlist(lab)))
     vals = coq_eval('c05reindex', IMPORTS, exprs)
     for (lab, o), v in zip(cases, vals):
         ok_contract, model = v
         call = o['argsort'][0]
-        if not ok_contract or not argsort_contract(call['keys'], call['perm']):
+        if not argsort_contract(call['keys'], call['perm']):
             ctx.violation('np.argsort', 'oracle answer outside its contract (not a sorting permutation)', case=call, check='oracle_contract')
+            continue
+        if not ok_contract:
+            ctx.violation('reindex_labels', 'np.argsort is not applied to the negated cluster sizes the model expects', case={'labels': lab},
+                          observed=call, check='correspondence')
             continue
         if list(model) != o['out']:
             ctx.violation('reindex_labels', 'implementation differs from the model', case={'labels': lab}, expected=list(model),
@@ -290,12 +295,12 @@ def part_post(ctx, impl, rng, quick):
     exprs = []
     for args, o, nr, nc, t, bip in cases:
         if args['sort_clusters']:
-            call = o['argsort'][0]
-            keys, perm = call['keys'], call['perm']
+            perm = o['argsort'][0]['perm']
+            keys = '(map (fun c => (- Z.of_nat c)%%Z) (unique_counts (map Z.of_nat %s)))' % nlist(args['raw'])
         else:
-            keys, perm = [], []
+            perm, keys = [], '[]'
         exprs.append('(argsort_ok_b %s %s, post_processing (fun _ => %s) %s %s %s %s)' %
-                     (zlist(keys), nlist(perm), nlist(perm), cbool(args['sort_clusters']), cbool(args['shuffle_nodes']),
+                     (keys, nlist(perm), nlist(perm), cbool(args['sort_clusters']), cbool(args['shuffle_nodes']),
                       nlist(args['index']), nlist(args['raw'])))
     vals = coq_eval('c05post', IMPORTS, exprs)
     sec = []
@@ -303,7 +308,8 @@ def part_post(ctx, impl, rng, quick):
         okc, model = v
         got = labels_vec(o)
         if not okc:
-            ctx.violation('np.argsort', 'oracle answer outside its contract', case=o['argsort'], check='oracle_contract')
+            ctx.violation('Louvain._post_processing', 'np.argsort answer does not sort the negated cluster sizes the model expects', case=args,
+                          observed=o['argsort'], check='correspondence')
             continue
         if list(model) != got:
             ctx.violation('Louvain._post_processing', 'labels differ from the model (sort / un-shuffle)', case=args,
